@@ -77,7 +77,26 @@ func subRunOn(store subscription.Store, in *Sx) *Sx {
 			}
 		case "unsub":
 			clients[o.List[1].Str()] = true
-			store.Unsubscribe(o.List[1].Str(), o.List[2].Str())
+			ts := []string{}
+			for _, t := range o.List[2:] { // one Unsubscribe call carrying one or several topic filters
+				ts = append(ts, t.Str())
+			}
+			store.Unsubscribe(o.List[1].Str(), ts...)
+		case "subm": // one Subscribe call carrying several subscriptions
+			c := o.List[1].Str()
+			clients[c] = true
+			subs := []*gmqtt.Subscription{}
+			for _, x := range o.List[2:] {
+				subs = append(subs, subOfSx(x))
+			}
+			rs, err := store.Subscribe(c, subs...)
+			for i := range subs {
+				if err != nil {
+					alreadys = append(alreadys, A("err"))
+				} else {
+					alreadys = append(alreadys, Bool(rs[i].AlreadyExisted))
+				}
+			}
 		case "unsuball":
 			clients[o.List[1].Str()] = true
 			store.UnsubscribeAll(o.List[1].Str())
@@ -150,6 +169,13 @@ func subGen(r *Rng, i int) *Sx {
 	for k := 0; k < nops; k++ {
 		c := Pick(r, clients)
 		switch x := r.Intn(10); {
+		case x < 1:
+			m := []*Sx{A("subm"), S(c)}
+			for j := 0; j < r.Range(2, 3); j++ {
+				m = append(m, sxSub(&gmqtt.Subscription{ShareName: Pick(r, shares), TopicFilter: Pick(r, pool), ID: uint32(r.Intn(3)), QoS: byte(r.Intn(3)),
+					NoLocal: r.Bool(), RetainAsPublished: r.Bool(), RetainHandling: byte(r.Intn(3))}))
+			}
+			ops = append(ops, L(m...))
 		case x < 6:
 			s := &gmqtt.Subscription{ShareName: Pick(r, shares), TopicFilter: Pick(r, pool), ID: uint32(r.Intn(3)), QoS: byte(r.Intn(3)),
 				NoLocal: r.Bool(), RetainAsPublished: r.Bool(), RetainHandling: byte(r.Intn(3))}
@@ -162,7 +188,15 @@ func subGen(r *Rng, i int) *Sx {
 			if r.Chance(1, 40) {
 				t = "$share/" + Pick(r, []string{"g1", "", "g2/"})
 			}
-			ops = append(ops, L(A("unsub"), S(c), S(t)))
+			u := []*Sx{A("unsub"), S(c), S(t)}
+			for r.Chance(1, 4) { // several filters in one call, of different kinds
+				t2 := Pick(r, pool)
+				if sh := Pick(r, shares); sh != "" {
+					t2 = "$share/" + sh + "/" + t2
+				}
+				u = append(u, S(t2))
+			}
+			ops = append(ops, L(u...))
 		default:
 			ops = append(ops, L(A("unsuball"), S(c)))
 		}
